@@ -23,6 +23,7 @@ unrestricted: any `Int` is reduced to the width (`Field.value`).
   int_roundtrip_unsigned / _signed   to_uint/to_int ∘ from_int = reduction to the width (list level)
   pack_len                           length of the record = Σ field widths
   pack_spec                          the pack words + `>bitstr` really produce `packAll fs`
+  toBitstr_nested / bitstr_append_spec   `>bitstr` ignores vector nesting; `a b bitstr-append` = b ++ a
   pack_parse_inverse                 opening those bits and running the matching read words returns the
                                      values in order, consumes everything: remain = 0
   emit_concat                        for EVERY split of the field list across emit calls:
@@ -93,6 +94,24 @@ theorem pack_spec (fs : List Field) (s : CurState) (hok : ∀ f ∈ fs, f.Ok) :
         ({ s with bigEndian := be, ds := .bitstr (packAll fs) :: s.ds }, .ok ()) := by
   obtain ⟨be, cs, hp, hc⟩ := pieces_spec fs s hok
   exact ⟨be, cs, hp, toBitstr_vec_eval _ cs _ hc⟩
+
+/-- `>bitstr` ignores nesting: wrapping any run of pieces into a nested vector yields the same bits -/
+theorem toBitstr_nested (a b c : List Cell) (x y z : List Bool)
+    (ha : concatVec (CellList.ofList a) = .ok x) (hb : concatVec (CellList.ofList b) = .ok y)
+    (hc : concatVec (CellList.ofList c) = .ok z) :
+    bitstrConcat (.vec (CellList.ofList (a ++ [.vec (CellList.ofList b)] ++ c))) = .ok (x ++ y ++ z) ∧
+    bitstrConcat (.vec (CellList.ofList (a ++ b ++ c))) = .ok (x ++ y ++ z) := by
+  have hn : concatVec (CellList.ofList [.vec (CellList.ofList b)]) = .ok y := by
+    simp [CellList.ofList, concatVec, concatElem, hb]
+  constructor
+  · exact concatVec_append _ _ _ _ (concatVec_append _ _ _ _ ha hn) hc
+  · exact concatVec_append _ _ _ _ (concatVec_append _ _ _ _ ha hb) hc
+
+/-- `a b bitstr-append` puts the top operand FIRST: the result is `b ++ a` -/
+theorem bitstr_append_spec (s : CurState) (a b : List Bool) (t : List Cell)
+    (hds : s.ds = .bitstr b :: .bitstr a :: t) :
+    step s .bitstrAppend = ({ s with ds := .bitstr (b ++ a) :: t }, .ok ()) := by
+  simp [step, popBitstr, popCell, lift, hds, Cell.toBitstr, Cell.value, pushC]
 
 /-! ### parse ∘ pack = id -/
 
